@@ -147,13 +147,16 @@ impl Runner {
                     let class = if msg.contains("PANIC") { "panic" } else { "model" };
                     problems.push((class.into(), format!("after {}: live dump failed: {}", op_kind(op), msg)));
                     self.desync = true;
-                    return StepReport { outcome: st.outcome, problems };
+                    if class == "panic" || !o.spec {
+                        return StepReport { outcome: st.outcome, problems };
+                    }
+                    // the operation itself succeeded: the image it left is still judged by the independent checker
                 }
             }
         }
-        if o.model {
+        if let (true, Some(ld)) = (o.model, live_dump.as_ref()) {
             let want = self.model.root.dump();
-            if let Some(d) = want.diff(live_dump.as_ref().unwrap()) {
+            if let Some(d) = want.diff(ld) {
                 problems.push(("model".into(), format!("after {}: model vs live: {}", op_kind(op), d)));
                 self.desync = true;
             }
@@ -186,7 +189,7 @@ impl Runner {
                             problems.push(("spec".into(), format!("after {}: {} (+{} more)", op_kind(op), first, errs.len() - 1)));
                         }
                     }
-                    if o.reopen {
+                    if o.reopen && live_dump.is_some() {
                         match spec::logical(p, &image) {
                             Ok(tree) => {
                                 if let Some(d) = live_dump.as_ref().unwrap().diff(&tree.dump()) {
@@ -198,7 +201,7 @@ impl Runner {
                     }
                 }
             }
-            if o.reopen {
+            if o.reopen && live_dump.is_some() {
                 for strict in [false, true] {
                     match Live::open(image.clone(), strict) {
                         Err(e) => problems.push(("reopen".into(), format!("after {}: snapshot does not reopen: {}", op_kind(op), e))),
